@@ -78,7 +78,10 @@ def gen_case(rng, quick):
     if r < 0.3:
         cv = dict(kind="none", shuffle=False, random_state=None)
     elif r < 0.55:
-        cv = dict(kind="none", shuffle=True, random_state=rng.randint(0, 10 ** 6))
+        # the seed is PRESENTED to the estimator as a python int, a numpy integer or a fresh
+        # RandomState(seed): every presentation must give the folds of KFold(2, True, int(seed))
+        cv = dict(kind="none", shuffle=True, random_state=rng.randint(0, 10 ** 6),
+                  seed_as=rng.choice(["int", "int64", "int32", "intp", "RandomState"]))
     elif r < 0.85:
         perm = list(range(n))
         rng.shuffle(perm)
@@ -177,8 +180,22 @@ def _alphas_arg(case):
     return tuple(al) if kind == "tuple" else np.array(al) if kind == "ndarray" else al
 
 
+def _present_seed(spec):
+    seed = spec.get("random_state")
+    if seed is None:
+        return None
+    kind = spec.get("seed_as", "int")
+    if kind == "RandomState":
+        return np.random.RandomState(int(seed))
+    return {"int": int, "int64": np.int64, "int32": np.int32, "intp": np.intp}[kind](seed)
+
+
 def run_impl(case):
     from skmatter.linear_model import Ridge2FoldCV
+    # numpy's GLOBAL generator is put into a case-dependent state unrelated to the case's seed: a fit
+    # whose folds come from it (seed not forwarded to KFold) cannot reproduce KFold(2, True, seed)
+    gseed = case["cv"].get("random_state")
+    np.random.seed((int(gseed) * 7919 + 104729 + len(case["X"])) % (2 ** 32) if gseed is not None else 12345)
     X = np.array(case["X"], dtype=float)
     Y = np.array(case["Y"], dtype=float)
     y = Y[:, 0] if case["y1d"] else Y
@@ -187,7 +204,7 @@ def run_impl(case):
         kw = dict(alphas=_alphas_arg(case),
                   alpha_type="relative" if case["relative"] else "absolute",
                   regularization_method=case["method"], cv=_cv_object(spec),
-                  scoring=case["scoring"], random_state=spec.get("random_state") if spec["kind"] == "none" else None,
+                  scoring=case["scoring"], random_state=_present_seed(spec) if spec["kind"] == "none" else None,
                   shuffle=spec.get("shuffle", True) if spec["kind"] == "none" else True,
                   n_jobs=case["n_jobs"])
         if case.get("refit"):
@@ -594,7 +611,7 @@ def run(ctx):
                  skipped=dict(cv_entries=0, selection=0, coef=0, predict=0, near_threshold=0, near_tie=0),
                  compared=dict(cv_entries=0, selection=0, coef=0, predict=0),
                  hint_residual_max=0.0, shapes={}, refit=0, alphas_as={}, split_computed_in_model=0,
-                 xnew_rows={}, exact_threshold_planted=0, exact_threshold_compared=0,
+                 xnew_rows={}, seed_presented_as={}, exact_threshold_planted=0, exact_threshold_compared=0,
                  exact_threshold_selected_full=0)
     for _ in range(ncases):
         c = gen_case(ctx.rng, ctx.quick)
@@ -611,6 +628,8 @@ def run(ctx):
             stats[k][v] = stats[k].get(v, 0) + 1
         stats["y1d"] += c["y1d"]
         stats["refit"] += bool(c.get("refit"))
+        if c["cv"].get("seed_as"):
+            stats["seed_presented_as"][c["cv"]["seed_as"]] = stats["seed_presented_as"].get(c["cv"]["seed_as"], 0) + 1
         stats["exact_threshold_planted"] += bool(c.get("exact_thrs"))
         stats["exact_threshold_compared"] += bool(c.get("exact_thrs") and all(g["gcv"]))
         stats["exact_threshold_selected_full"] += bool(
